@@ -148,33 +148,34 @@ type c02Expect struct {
 
 // c02Check decodes and compares; returns "" or a message.
 func c02Check(stream []byte, exps []c02Expect, counts map[uint16]int) string {
-	res := safeDecode(bytes.NewReader(stream))
-	if res.Panic != "" {
-		return "Decode panics: " + res.Panic
-	}
-	if res.Err != nil {
-		return "Decode fails on a well-formed compatible stream: " + res.Err.Error()
-	}
-	for m, n := range counts {
-		if got := len(messagesOf(res.File, m)); got != n {
-			return fmt.Sprintf("expected %d message(s) of %v, found %d", n, fit.MesgNum(m), got)
+	verify := func(res callResult, how string) string {
+		if res.Panic != "" {
+			return "Decode" + how + " panics: " + res.Panic
 		}
+		if res.Err != nil {
+			return "Decode" + how + " fails on a well-formed compatible stream: " + res.Err.Error()
+		}
+		for m, n := range counts {
+			if got := len(messagesOf(res.File, m)); got != n {
+				return fmt.Sprintf("expected %d message(s) of %v%s, found %d", n, fit.MesgNum(m), how, got)
+			}
+		}
+		for _, ex := range exps {
+			got := messagesOf(res.File, ex.mesg)
+			if ex.index >= len(got) {
+				return fmt.Sprintf("message #%d of %v missing%s", ex.index, fit.MesgNum(ex.mesg), how)
+			}
+			if d := diffMsg(got[ex.index], ex.want, compIgnore(got[ex.index])); d != "" {
+				return fmt.Sprintf("%v #%d%s: %s", fit.MesgNum(ex.mesg), ex.index, how, d)
+			}
+		}
+		return ""
 	}
-	for _, ex := range exps {
-		got := messagesOf(res.File, ex.mesg)
-		if ex.index >= len(got) {
-			return fmt.Sprintf("message #%d of %v missing", ex.index, fit.MesgNum(ex.mesg))
-		}
-		if d := diffMsg(got[ex.index], ex.want, compIgnore(got[ex.index])); d != "" {
-			return fmt.Sprintf("%v #%d: %s", fit.MesgNum(ex.mesg), ex.index, d)
-		}
+	if msg := verify(safeDecode(bytes.NewReader(stream)), ""); msg != "" {
+		return msg
 	}
 	// 1-byte reads must give the same content
-	res1 := safeDecode(&oneByteReader{b: stream})
-	if res1.Panic != "" || res1.Err != nil || dumpFileContent(res1.File) != dumpFileContent(res.File) {
-		return fmt.Sprintf("decoding with 1-byte reads differs: err=%v panic=%q", res1.Err, res1.Panic)
-	}
-	return ""
+	return verify(safeDecode(&oneByteReader{b: stream}), " (1-byte reads)")
 }
 
 func newWant(m uint16, ft byte) reflect.Value {
@@ -350,6 +351,31 @@ func runC02(w *vx.W) {
 						}
 						if m == 0 {
 							continue
+						}
+						// --- context: several data records under one definition (state computed at definition time
+						// must hold for every record), interleaved with a record of another definition on another slot
+						{
+							pls := c02Payloads(e, fd, big)
+							pl2 := pls[(pi+3)%len(pls)]
+							want2 := newWant(m, ftb)
+							if modelSet(want2, e, fd, big, pl2) {
+								d := fitmodel.Def{Local: 1, Big: big, Global: m, Fields: []fitmodel.FieldDef{fd}}
+								recs := append(fitmodel.FileIdRecords(0, ftb), d.Bytes(), fitmodel.Data(1, pl), unknownDef.Bytes(), unknownData, fitmodel.Data(1, pl2), unknownData, fitmodel.Data(1, pl))
+								var exps []c02Expect
+								n := 1
+								if slotIsSlice(ftb, m) {
+									n = 3
+									exps = []c02Expect{{m, 0, want}, {m, 1, want2}, {m, 2, want}}
+								} else {
+									exps = []c02Expect{{m, 0, want}}
+								}
+								s := fitmodel.File(fitmodel.DefaultHeader, recs...)
+								w.Eval(1)
+								w.DistinctS(caseID + "/three-records")
+								if msg := c02Check(s, exps, map[uint16]int{m: n}); msg != "" {
+									report(e, fd, big, "three-records-one-definition", s, msg)
+								}
+							}
 						}
 						// --- context: developer fields on the same record (1 and 2 descriptors)
 						for nd := 1; nd <= 2; nd++ {
